@@ -13,3 +13,12 @@ open XotModel.Props
 #print axioms C08_wraps_prefixes
 #print axioms C08_wraps_namespaces
 #print axioms C08_bulk_is_history
+#print axioms C08_parse_bridge
+#print axioms C08_parse_registrations
+#print axioms C08_parse_registrations_inv
+#print axioms C08_parse_tree
+#print axioms C08_parse_places
+#print axioms C08_parse_capacity_needed
+#print axioms C08_parse_history
+#print axioms C08_parse_history_tree
+#print axioms C08_html5
